@@ -141,21 +141,52 @@ func (q *Query) OutCols(ctes map[string][]Column) []Column {
 	return out
 }
 
-// CanRetract reports whether the plan contains a TRIGGER COUNTING group-by (whose output is a
-// changelog with retractions), so that json/csv would print the raw changelog.
-func (q *Query) CanRetract() bool {
-	if strings.HasPrefix(q.Trigger, "COUNTING") {
-		return true
-	}
-	for _, c := range q.With {
-		if c.Q.CanRetract() {
-			return true
+// EmitsRetractions reports whether the record stream this level's SELECT produces (before the
+// level's own ORDER BY / LIMIT) can contain retractions: a TRIGGER COUNTING group-by at this
+// level, or a retracting source that is passed through by WHERE / projection / DISTINCT. A nested
+// level with ORDER BY or LIMIT buffers its input and emits the final rows only, and a group-by
+// without a counting trigger emits once at the end of the stream.
+func (q *Query) EmitsRetractions() bool { return q.emitsRetractions(map[string]*Query{}) }
+
+func (q *Query) emitsRetractions(ctes map[string]*Query) bool {
+	if len(q.With) > 0 {
+		m := map[string]*Query{}
+		for k, v := range ctes {
+			m[k] = v
 		}
+		for _, c := range q.With {
+			m[c.Name] = c.Q
+		}
+		ctes = m
 	}
-	if q.From.Kind == SrcSub {
-		return q.From.Sub.CanRetract()
+	if q.Grouping {
+		return strings.HasPrefix(q.Trigger, "COUNTING")
 	}
-	return false
+	var src *Query
+	switch q.From.Kind {
+	case SrcSub:
+		src = q.From.Sub
+	case SrcCTE:
+		src = ctes[q.From.CTE]
+	}
+	if src == nil {
+		return false
+	}
+	if len(src.OrderBy) > 0 || src.Limit >= 0 {
+		return false
+	}
+	return src.emitsRetractions(ctes)
+}
+
+// HasCountingTrigger reports whether any level uses TRIGGER COUNTING.
+func (q *Query) HasCountingTrigger() bool {
+	found := false
+	q.Visit(func(x *Query, _ int) {
+		if strings.HasPrefix(x.Trigger, "COUNTING") {
+			found = true
+		}
+	}, 0)
+	return found
 }
 
 // Visit calls fn for q and every nested query.
@@ -310,11 +341,14 @@ type Result struct {
 	GlobalAggEmpty bool
 	// AltRow is that alternative single row.
 	AltRow Row
+	// QuirkLimit0 / QuirkDup count the levels at which the emulation of the two known LIMIT
+	// defects (EvalOpts.Quirks) changed the rows.
+	QuirkLimit0, QuirkDup int
 }
 
 // Eval evaluates the query.
 func (q *Query) Eval(o EvalOpts) (*Result, error) {
-	return q.eval(o, map[string]*Result{})
+	return q.eval(o, map[string]*Result{}, map[string]*Query{}, true)
 }
 
 // CompareKeys compares two rows on the order keys.
@@ -358,20 +392,24 @@ func cutAmbiguous(full []Row, keys []OrderKey, n int) bool {
 	return false
 }
 
-func (q *Query) eval(o EvalOpts, ctes map[string]*Result) (*Result, error) {
+func (q *Query) eval(o EvalOpts, ctes map[string]*Result, cteQ map[string]*Query, top bool) (*Result, error) {
 	if len(q.With) > 0 {
 		m := map[string]*Result{}
+		mq := map[string]*Query{}
 		for k, v := range ctes {
 			m[k] = v
+			mq[k] = cteQ[k]
 		}
 		for _, c := range q.With {
-			r, err := c.Q.eval(o, m)
+			r, err := c.Q.eval(o, m, mq, false)
 			if err != nil {
 				return nil, err
 			}
 			m[c.Name] = r
+			mq[c.Name] = c.Q
 		}
 		ctes = m
+		cteQ = mq
 	}
 	res := &Result{Limit: q.Limit, OrderBy: q.OrderBy}
 	// FROM
@@ -383,13 +421,15 @@ func (q *Query) eval(o EvalOpts, ctes map[string]*Result) (*Result, error) {
 		if r.Ambiguous || cutAmbiguous(r.Full, r.OrderBy, r.Limit) || r.GlobalAggEmpty {
 			res.Ambiguous = true
 		}
+		res.QuirkLimit0 += r.QuirkLimit0
+		res.QuirkDup += r.QuirkDup
 	}
 	switch q.From.Kind {
 	case SrcTable:
 		in = q.From.Table.Rows
 		inCols = q.From.Table.Cols
 	case SrcSub:
-		r, err := q.From.Sub.eval(o, ctes)
+		r, err := q.From.Sub.eval(o, ctes, cteQ, false)
 		if err != nil {
 			return nil, err
 		}
@@ -480,6 +520,27 @@ func (q *Query) eval(o EvalOpts, ctes map[string]*Result) (*Result, error) {
 	res.Rows = out
 	if q.Limit >= 0 && q.Limit < len(out) {
 		res.Rows = out[:q.Limit]
+	}
+	if o.Quirks && q.Limit >= 0 && !(top && o.TableMode) {
+		// Emulation of the two known LIMIT defects, used only to attribute an observed
+		// discrepancy to them: (1) a level without ORDER BY over a non-retracting source is a Limit
+		// node, which compares after producing, so LIMIT 0 passes everything; (2) any other
+		// limited level is an OrderSensitiveTransform, which counts distinct (key, row) items
+		// instead of rows.
+		ost := len(q.OrderBy) > 0 || q.emitsRetractions(cteQ)
+		n := q.Limit
+		if ost {
+			if n > 0 && n < len(out) {
+				alt := FirstDistinctItems(out, q.OrderBy, n)
+				if len(alt) != n {
+					res.Rows = alt
+					res.QuirkDup++
+				}
+			}
+		} else if n == 0 && len(out) > 0 {
+			res.Rows = out
+			res.QuirkLimit0++
+		}
 	}
 	return res, nil
 }
@@ -593,7 +654,7 @@ func EvalAgg(a *Agg, rows []Row, o EvalOpts) (Value, error) {
 			s = s / float64(len(vals))
 			tol = tol / float64(len(vals))
 		}
-		r, err := checkFloat(s)
+		r, err := o.checkFloat(s)
 		if err != nil {
 			// a sum that is exactly -0.0 cannot arise from inputs without -0.0; NaN/Inf can
 			return Value{}, err
